@@ -50,7 +50,7 @@ class SidecarValidator:
         # only allowed early out, something is very wrong with structure or refs
         if check_for_any_errors(issues):
             error_handler.pop_error_context()
-            return issues
+            return sort_issues(issues)
         sidecar_def_dict = sidecar.get_def_dict(hed_schema=self._schema, extra_def_dicts=extra_def_dicts)
         hed_validator = HedValidator(self._schema, def_dicts=sidecar_def_dict,  definitions_allowed=True)
 
